@@ -7,41 +7,58 @@ ADAPTERS = {'GenericConstraints::from_config'}
 
 
 def backend_wiring(ctx, rep, rule, only_fields=None):
-    """Each backend struct field is initialised from config.<own language>.<same name>; every params field is consumed."""
-    f = ctx.fnx('language', file='cli/src/main.rs')
-    lits = [s for s in f['structs'] if s['path'].split('::')[-1] in SECTION]
-    rep.floor(rule, 'backend constructions in language()', len(lits), 6)
-    cfg_param = next((p['name'] for p in f['params'] if p.get('ty') == 'Config'), 'config')
-    for st in lits:
+    """Each backend struct field is initialised from config.<own language>.<same name>; every params field is consumed.
+    The backend literals are looked for in the whole CLI crate (language() itself, `From<XParams> for X` impls, builder
+    helpers): a field value is either `config.<section>.<field>` (root of type Config) or `<params>.<field>` where the root
+    is a value of the language's own params struct."""
+    fns = [f for f in ctx.astq['functions'] if f['file'].startswith('cli/src/')]
+    fl = ctx.fnx('language', file='cli/src/main.rs')
+    lits = []
+    for f in [fl] + [g for g in fns if not (g['file'] == fl['file'] and g['name'] == fl['name'])]:
+        for st in f['structs']:
+            if st['path'].split('::')[-1] in SECTION:
+                lits.append((f, st))
+    have = {st['path'].split('::')[-1] for _, st in lits}
+    rep.floor(rule, 'backends constructed somewhere in the CLI crate', len(have), 6)
+    consumed = {}
+    for f, st in lits:
         be = st['path'].split('::')[-1]
         sec = SECTION[be]
-        consumed = set()
+        site = {'file': f['file'], 'line': st['line']}
         for fld, v in st['v']['fields'].items():
             if only_fields and fld not in only_fields:
                 continue
-            site = {'file': f['file'], 'line': st['line']}
             key = f'{be}.{fld}'
             inner = vt.strip(v)
             if isinstance(inner, dict) and inner.get('k') == 'call' and inner.get('f') in ADAPTERS and inner.get('args'):
                 inner = vt.strip(inner['args'][0])
-            if isinstance(inner, dict) and inner.get('k') == 'atom' and inner.get('root') == cfg_param:
+            if isinstance(inner, dict) and inner.get('k') == 'atom' and inner.get('root_ty') == 'Config':
                 path = inner.get('path', [])
                 ok = len(path) == 2 and path[0] == sec and path[1] == fld
                 if len(path) == 2:
-                    consumed.add((path[0], path[1]))
-                rep.check(ok, rule, key, f'{be}.{fld} = config.{".".join(path)}', f"language(): {be}.{fld} is initialised from config.{'.'.join(path)} — expected config.{sec}.{fld} (another language's / another setting's value is silently used)", site)
+                    consumed.setdefault(be, set()).add((path[0], path[1]))
+                rep.check(ok, rule, key, f'{be}.{fld} = config.{".".join(path)}', f"{f['name']}(): {be}.{fld} is initialised from config.{'.'.join(path)} — expected config.{sec}.{fld} (another language's / another setting's value is silently used)", site)
+            elif isinstance(inner, dict) and inner.get('k') == 'atom' and str(inner.get('root_ty', '')).endswith('Params'):
+                path = inner.get('path', [])
+                own = inner.get('root_ty') == PARAMS[sec]
+                ok = own and len(path) == 1 and path[0] == fld
+                if own and len(path) == 1:
+                    consumed.setdefault(be, set()).add((sec, path[0]))
+                rep.check(ok, rule, key, f'{be}.{fld} = <{inner.get("root_ty")}>.{".".join(path)}', f"{f['qual']}: {be}.{fld} is initialised from {inner.get('root_ty')}.{'.'.join(path)} — expected the field `{fld}` of {PARAMS[sec]} (another language's / another setting's value is silently used)", site)
             elif isinstance(inner, dict) and inner.get('k') == 'atom' and inner.get('param') and inner.get('root') == fld:
                 rep.ok(rule, key, f'{be}.{fld} = parameter {fld}', site)
             else:
-                rep.fail(rule, key, f"language(): {be}.{fld} is initialised from `{vt.show(v)[:80]}`, not from config.{sec}.{fld}", site)
-        if only_fields:
-            continue
-        # reverse: every field of the params struct is used by this arm
+                rep.fail(rule, key, f"{f['qual']}: {be}.{fld} is initialised from `{vt.show(v)[:80]}`, not from config.{sec}.{fld}", site)
+    if only_fields:
+        return
+    # reverse: every field of the params struct is used by a construction of its own backend
+    for be, sec in SECTION.items():
         ps = [i for i in ctx.astq['items'] if i['kind'] == 'struct' and i['name'] == PARAMS[sec]]
         if not ps:
             raise core.Incomplete(f'config struct {PARAMS[sec]} not found')
+        f0, st0 = next(((f, st) for f, st in lits if st['path'].split('::')[-1] == be), (fl, {'line': fl['line']}))
         for pf in ps[0]['fields']:
-            rep.check((sec, pf['name']) in consumed, rule, f'{sec}.{pf["name"]}:consumed', 'consumed by its backend', f"language(): the configuration value {sec}.{pf['name']} is never handed to the {be} backend — the setting from typeshare.toml / the command line has no effect", {'file': f['file'], 'line': st['line']})
+            rep.check((sec, pf['name']) in consumed.get(be, set()), rule, f'{sec}.{pf["name"]}:consumed', 'consumed by its backend', f"the configuration value {sec}.{pf['name']} is never handed to the {be} backend — the setting from typeshare.toml / the command line has no effect", {'file': f0['file'], 'line': st0['line']})
 
 
 def config_mutations(ctx, prog):
